@@ -368,7 +368,7 @@ Proof. intros file cB H. unfold loaded_cfg. rewrite H. reflexivity. Qed.
 
 Theorem restart_reset : forall file cB,
   sub_changed (wanted cB) file = true ->
-  loaded_cfg file cB = set_sub cB (wanted cB) /\ forall saved, restart_state file cB saved = init (loaded_cfg file cB).
+  loaded_cfg file cB = set_sub cB (wanted cB) /\ forall saved, restart_state file cB [] saved = init (loaded_cfg file cB).
 Proof.
   intros file cB H. split; [exact (loaded_reset file cB H)|].
   intros saved. unfold restart_state. rewrite H. reflexivity.
@@ -508,14 +508,14 @@ Proof.
 Qed.
 
 (* the restarted handler: whatever the file held, whatever was restored *)
-Theorem restart_reply_config : forall file cB saved h t m r,
+Theorem restart_reply_config : forall file cB pre saved h t m r,
   c_nfip cB = c_hostip cB ->
   let cL := loaded_cfg file cB in
-  In t (trace cL (restart_state file cB saved) h) -> op_msg (t_op t) = Some m -> t_reply t = Some r ->
+  In t (trace cL (restart_state file cB pre saved) h) -> op_msg (t_op t) = Some m -> t_reply t = Some r ->
   c12_config cL (t_pre t) m r = true /\ c12_mask_first r = true.
 Proof.
-  intros file cB saved h t m r Hn cL Hin Hm Hr.
-  apply (reply_config_any_state cL (restart_state file cB saved) h t m r); auto.
+  intros file cB pre saved h t m r Hn cL Hin Hm Hr.
+  apply (reply_config_any_state cL (restart_state file cB pre saved) h t m r); auto.
   apply loaded_cfg_ok. exact Hn.
 Qed.
 
